@@ -21,6 +21,8 @@ ndim_max = 3
 # TODO: With python 3.10, use strict=True zip kwarg
 sparse_array_imath = """
 def __i{name}__(self, other):
+    for i in self.rows:
+        if i.__class__ is SparseVector and i.read_only: raise ValueError('assignment destination is read-only')
     if other.__class__ is SparseArray:
         rows = self.rows
         other_rows = other.rows
@@ -547,6 +549,8 @@ class SparseArray:
         return new
     
     def clear(self):
+        for i in self.rows:
+            if i.__class__ is SparseVector and i.read_only: raise ValueError('assignment destination is read-only')
         for i in self.rows: i.set.clear()
     
     def copy(self):
